@@ -22,9 +22,9 @@ def _replace_types_annotations(ann, arg=None):
         isinstance(ann, ast.Subscript)
         and isinstance(ann.value, ast.Name)
         and ann.value.id == "Tuple"
-        and hasattr(ann.slice, "elts")
     ):
-        _elts = ann.slice.elts
+        # Tuple[T] has a slice that is not a tuple
+        _elts = ann.slice.elts if hasattr(ann.slice, "elts") else [ann.slice]
         _ituple = ast.Tuple(elts=[_replace_types_annotations(el) for el in _elts])
 
         ann = ast.Subscript(
@@ -54,7 +54,8 @@ def _replace_types_annotations(ann, arg=None):
         and hasattr(ann.slice, "elts")
     ):
         _elts = ann.slice.elts
-        _ituple = ast.Tuple(elts=[copy.deepcopy(_elts[0])] * _elts[1].value)
+        _el = _replace_types_annotations(copy.deepcopy(_elts[0]))
+        _ituple = ast.Tuple(elts=[_el] * _elts[1].value)
 
         ann = ast.Subscript(
             value=ast.Name(id="Tuple", ctx=ast.Load()),
@@ -69,7 +70,8 @@ def _replace_types_annotations(ann, arg=None):
         and hasattr(ann.slice, "elts")
     ):
         _elts = ann.slice.elts
-        _ituple_row = ast.Tuple(elts=[copy.deepcopy(_elts[0])] * _elts[2].value)
+        _el = _replace_types_annotations(copy.deepcopy(_elts[0]))
+        _ituple_row = ast.Tuple(elts=[_el] * _elts[2].value)
         _ituple = ast.Tuple(elts=[copy.deepcopy(_ituple_row)] * _elts[1].value)
 
         ann = ast.Subscript(
